@@ -30,9 +30,9 @@ where
 /// Remove all [`ExtWaker`] wrapped around the waker and retrieve the underlying
 /// waker.
 pub(crate) fn get_waker(waker: &Waker) -> &Waker {
-    if waker.vtable() == ExtWaker::VTABLE {
+    if std::ptr::eq(waker.vtable(), ExtWaker::VTABLE) {
         get_waker(unsafe { ExtWaker::from_raw(waker.data()) }.waker)
-    } else if waker.vtable() == OwnedExtWaker::VTABLE {
+    } else if std::ptr::eq(waker.vtable(), OwnedExtWaker::VTABLE) {
         get_waker(&unsafe { OwnedExtWaker::from_raw(waker.data()) }.waker)
     } else {
         waker
@@ -40,12 +40,12 @@ pub(crate) fn get_waker(waker: &Waker) -> &Waker {
 }
 
 pub(crate) fn get_ext(waker: &Waker) -> Option<&Ext<'_>> {
-    if waker.vtable() == ExtWaker::VTABLE {
+    if std::ptr::eq(waker.vtable(), ExtWaker::VTABLE) {
         unsafe { ExtWaker::from_raw(waker.data()) }
             .ext
             .get()
             .copied()
-    } else if waker.vtable() == OwnedExtWaker::VTABLE {
+    } else if std::ptr::eq(waker.vtable(), OwnedExtWaker::VTABLE) {
         unsafe { OwnedExtWaker::from_raw(waker.data()) }.ext.get()
     } else {
         None
@@ -57,6 +57,20 @@ pub(crate) fn get_ext(waker: &Waker) -> Option<&Ext<'_>> {
 /// When cloned in the same thread where it's created, the extra data is cloned
 /// into owned form and converted to [`OwnedExtWaker`]; otherwise, only the
 /// underlying waker is cloned and the data will be lost.
+static EXT_WAKER_VTABLE: RawWakerVTable = RawWakerVTable::new(
+    ExtWaker::clone,
+    ExtWaker::wake,
+    ExtWaker::wake_by_ref,
+    ExtWaker::drop,
+);
+
+static OWNED_EXT_WAKER_VTABLE: RawWakerVTable = RawWakerVTable::new(
+    OwnedExtWaker::clone,
+    OwnedExtWaker::wake,
+    OwnedExtWaker::wake_by_ref,
+    OwnedExtWaker::drop,
+);
+
 #[derive(Debug, Clone)]
 pub(crate) struct ExtWaker<'a, 'b> {
     waker: &'a Waker,
@@ -66,8 +80,9 @@ pub(crate) struct ExtWaker<'a, 'b> {
 }
 
 impl<'a, 'b> ExtWaker<'a, 'b> {
-    const VTABLE: &'static RawWakerVTable =
-        &RawWakerVTable::new(Self::clone, Self::wake, Self::wake_by_ref, Self::drop);
+    // The vtable identifies the waker type in `get_waker`/`get_ext`, so it must have a single
+    // address: a `static`, not a promoted constant that every use site may instantiate again.
+    const VTABLE: &'static RawWakerVTable = &EXT_WAKER_VTABLE;
 
     pub fn new(waker: &'a Waker, ext: &'a Ext<'b>) -> Self {
         Self {
@@ -146,8 +161,7 @@ impl Drop for Inner {
 }
 
 impl OwnedExtWaker {
-    const VTABLE: &'static RawWakerVTable =
-        &RawWakerVTable::new(Self::clone, Self::wake, Self::wake_by_ref, Self::drop);
+    const VTABLE: &'static RawWakerVTable = &OWNED_EXT_WAKER_VTABLE;
 
     unsafe fn clone(ptr: *const ()) -> RawWaker {
         unsafe { Arc::increment_strong_count(ptr.cast::<Inner>()) };
